@@ -32,18 +32,26 @@ def _drv_method(p, name):
 
 def rule_branch(ctx):
     p = ctx.p
+    from .driverworld import build_drivers
     f = _drv_method(p, "message_from_client")
     gp = p.cls("indi.message.get_properties.GetProperties")
-    cases = [(None, ["V1", "V2", "V22", "V3"]), ("", ["V1", "V2", "V22", "V3"]), ("V2", ["V2"]), ("NOPE", []), ("V3", ["V3"]), ("V", []), ("v2", []), ("V22", ["V22"])]
+    # two drivers in one process (built by interpreting the real constructors); requests go to DEVA
+    own = ["V1", "V2", "V22", "V3"]
+    cases = [(None, own), ("", own), ("V2", ["V2"]), ("NOPE", []), ("V3", ["V3"]), ("V", []), ("v2", []), ("V22", ["V22"]), ("W9", [])]
     bad = False
     for name, expect in cases:
         def run(it: Interp):
-            drv, vecs = make_driver(p, [("Text", "V1", True), ("Number", "V2", True), ("Light", "V22", True), ("Switch", "V3", False)])
-            msg = Obj(gp, {"device": Const("DEV"), "name": Const(name), "version": Const("1.7"), "__closed__": Const(True)}, label="getProperties")
-            return it.run_function(Fn(f, drv), [msg], {})
+            drivers = build_drivers(it, p)
+            it.drivers = drivers
+            msg = Obj(gp, {"device": Const("DEVA"), "name": Const(name), "version": Const("1.7"), "__closed__": Const(True)}, label="getProperties")
+            return it.run_function(Fn(f, drivers["DEVA"]), [msg], {})
 
         paths = explore(p, run, {"inline": lambda fi, node: False})
         ctx.paths_enumerated += len(paths)
+        if len(paths) != 1:
+            ctx.undecided("C07.BRANCH", f.short, f"getProperties(name={name!r}) not decided by constant evaluation ({len(paths)} paths)", fi=f)
+            bad = True
+            continue
         for pa in paths:
             if pa.outcome != "return":
                 ctx.violated("C07.BRANCH", f.short, f"getProperties(name={name!r}) raises: {show(pa.value) if pa.value is not None else ''}", fi=f, text=f"raises:{name}")
@@ -57,11 +65,12 @@ def rule_branch(ctx):
                     got.append(show(a.args[0].self_val).replace("vec:", ""))
                 else:
                     got.append(f"?{show(a)[:30] if a is not None else None}")
-            if got != expect:
-                ctx.violated("C07.BRANCH", f.short, f"getProperties(name={name!r}) is answered with definitions of {got}, expected {expect}", fi=f, text=f"answer:{name}:{got}", witness=f"driver with V1,V2,V3; <getProperties name={name!r}>")
+            want = [f"DEVA.{v}" for v in expect]
+            if got != want:
+                ctx.violated("C07.BRANCH", f.short, f"getProperties(device=DEVA, name={name!r}) is answered by DEVA with definitions of {got}, expected {want} (a second driver DEVB with properties V1, W9 exists in the same process)", fi=f, text=f"answer:{name}:{got}", witness=f"drivers DEVA(V1,V2,V22,V3) and DEVB(V1,W9); <getProperties device='DEVA' name={name!r}>")
                 bad = True
     if not bad:
-        ctx.holds("C07.BRANCH", f.short, f"{len(cases)} request shapes answered with exactly the requested definitions", fi=f)
+        ctx.holds("C07.BRANCH", f.short, f"{len(cases)} request shapes answered with exactly the requested definitions of the addressed driver (two drivers constructed in one process)", fi=f)
     # send_message drops None and forwards everything else with the driver as sender
     sm = _drv_method(p, "send_message")
     for arg, expect_calls in ((Const(None), 0), (Obj(None, label="<msg>"), 1)):
